@@ -394,7 +394,7 @@ public:
   {
     std::vector<T> v((size_t)((std::abs(from - to) + by / 100) / by) + 1);
     T step = from < to ? by : -by;
-    T val(from < to ? from : to);
+    T val(from);
     for (auto& vi:v)
     {
       vi = val;
